@@ -200,6 +200,31 @@ let () =
         | REof -> "1"
         | RFail r -> status_str r in
       (Printf.sprintf "%s n=%d last=%s h=%08x" (Buffer.contents b) n last_s !h, it') in
+  (* the low-level readdir API (ops RI RR, ReaddirLowModel): caller-owned cursor objects; before their first
+     initialisation they hold 0xA5 bytes like the harness's *)
+  let poison k = n_of_string (match k with 4 -> "2779096485" | _ -> "11936128518282651045") in
+  let rcur : rdstate array = Array.make 4 { it_inode_block = poison 4; it_block = poison 8; it_offset = poison 8;
+                                            it_size = poison 8; it_entries = poison 8; it_inum_base = poison 4 } in
+  let ropen = Array.make 4 false in
+  let read_entries_low it count =
+    match runc (readdir_low_many (nat_of_int count) it []) with
+    | None -> (" UNPOSITIONED", it)
+    | Some ((ents, last), it') ->
+      let h = ref hash_init in
+      let b = Buffer.create 64 in
+      List.iteri (fun k (((hd, name), iref), inum) ->
+        h := hash_add !h hd; h := hash_add !h name; h := hash_add !h (le_bytes iref 8); h := hash_add !h (le_bytes inum 4);
+        if k < 2 then begin
+          Buffer.add_string b " e=";
+          List.iteri (fun j x -> if j < 12 then Buffer.add_string b (Printf.sprintf "%02x" (int_of_n x))) name;
+          Buffer.add_string b ("," ^ string_of_n inum)
+        end) ents;
+      let n = List.length ents in
+      let last_s = match last with
+        | REnt _ -> if count > 200000 then "-999" else "0"
+        | REof -> "1"
+        | RFail r -> status_str r in
+      (Printf.sprintf "%s n=%d last=%s h=%08x" (Buffer.contents b) n last_s !h, it') in
   let cstr l = let rec go = function [] -> [N0] | x :: r -> if x = N0 then [N0] else x :: go r in go l in
   let file_inode ref_ add =
     match runc (inode_client sb ref_) with
@@ -288,6 +313,26 @@ let () =
            | Some it ->
              let (txt, it') = read_entries it (int_of_string (arg 2)) in
              dslots.(sl) <- Some it'; add txt)
+        | "RI" ->
+          let sl = int_of_string (arg 1) mod 4 in
+          ropen.(sl) <- false;
+          (match runc (inode_client sb (n_of_string (arg 2))) with
+           | None -> add " UNPOSITIONED"
+           | Some (Ok i) ->
+             add " i=0";
+             let (r, it) = readdir_state_init rcur.(sl) sb i in
+             rcur.(sl) <- it;
+             add (" o=" ^ status_str r);
+             (match r with Ok _ -> ropen.(sl) <- true | _ -> ())
+           | Some e -> add (" i=" ^ status_str e))
+        | "RR" ->
+          let sl = int_of_string (arg 1) mod 4 in
+          if not ropen.(sl) then add " -"
+          else begin
+            let cnt = min (int_of_string (arg 2)) 200001 in
+            let (txt, it') = read_entries_low rcur.(sl) cnt in
+            rcur.(sl) <- it'; add txt
+          end
         | "DL" ->
           (match runc (open_dir_client sb (n_of_string (arg 1))) with
            | None -> add " UNPOSITIONED"
